@@ -372,7 +372,11 @@ def parse_user_item(t, second, body, strict):
         while rr.rest():
             m = rr.u16()
             rel.append(_uid(rr.take(m), "related uid", strict))
-        # remaining bytes are reserved for future use and shall be ignored
+        # remaining bytes: "reserved for additional fields of the sub-item; shall be zero-length for version 0 of the sub-item
+        # definition" (PS3.7 Table D.3-13). The lenient parser ignores them; a sender that puts bytes there does not conform to
+        # version 0 (byte 2 of this sub-item is its version, not a reserved byte), so the strict parser does not vouch for it.
+        if strict and (r.rest() or second != 0):
+            raise Reject("common ext: bytes after the related general SOP class list / sub-item version != 0")
         return SOPCommonExt(u, s, rel)
     if t == 0x58:
         ty, rq = r.u8(), r.u8()
@@ -776,7 +780,8 @@ def reserved_offsets(b):
     ('sent with value 00H but not tested'): byte 2 of the PDU header and of every item / sub-item header, bytes 9-10 and 43-74
     of A-ASSOCIATE-RQ/AC, the called/calling AE title fields of an A-ASSOCIATE-AC (Table 9-17), the three bytes after the context
     ID of a presentation context item (RQ) resp. the bytes before and after Result/Reason (AC), byte 7 of A-ASSOCIATE-RJ,
-    bytes 7-10 of A-RELEASE-RQ/RP and bytes 7-8 of A-ABORT. Unknown layouts contribute only the PDU-level fields."""
+    bytes 7-10 of A-RELEASE-RQ/RP and bytes 7-8 of A-ABORT; not byte 2 of sub-item 57H (Table D.3-13: sub-item version). Unknown
+    layouts contribute only the PDU-level fields."""
     out = [1]
     if len(b) < 6:
         return out
@@ -792,7 +797,8 @@ def reserved_offsets(b):
                 end = o + 4 + ln
                 if end > stop:
                     return
-                out.append(o + 1)
+                if not (depth == 1 and b[o] == 0x57):  # byte 2 of the SOP Class Common Extended Negotiation sub-item is its version
+                    out.append(o + 1)
                 if depth == 0 and b[o] == 0x20 and ln >= 4:
                     out.extend([o + 5, o + 6, o + 7])
                     walk(o + 8, end, 1)
